@@ -94,6 +94,16 @@ o = obj()
 o.f = v0
 h = o.f
 `},
+	{"e_literals", zzNeedNone, `
+a = 1180591620717411303424
+b = 1.5
+c = "s"
+d = b"by"
+e = 0x7fffffff + 1
+f = -2147483648 - 1
+g = [a, b, c, d, (), [], {}]
+h = a if v3 else b
+`},
 }
 
 // ---- control flow ----
@@ -236,6 +246,18 @@ def d():
         return i
     return 2
 r = [a(), b(), c(), d()]
+`},
+	{"c_condnot", zzNeedNone, `
+def f():
+    if not (v0 if p else v1):
+        emit(1)
+    if (p or q) and not (v3 and p):
+        emit(2)
+    elif not p and not q:
+        emit(3)
+    x = emit(4) if not v3 else emit(5)
+    return x
+r = f()
 `},
 }
 
@@ -528,6 +550,19 @@ r = twice(add(v0), v1)
 m = {"f": add(1)}
 r2 = m["f"](v2)
 `},
+	{"f_sigs", zzNeedNone, `
+def f1(a=1, *args, k):
+    return [a, args, k]
+def f2(a, b=2, *, k=3, **kw):
+    return [a, b, k, kw]
+def f3(*, k):
+    return k
+def f4(**kw):
+    return kw
+def f5(g=lambda: v0):
+    return g()
+r = [f1(k=v0), f1(5, 6, k=v1), f2(v0), f2(1, k=v1, z=2), f3(k=v2), f4(), f4(a=v0), f5(), f5(lambda: 1)]
+`},
 }
 
 // ---- scoping ----
@@ -622,6 +657,18 @@ y = [len for i in [1]]
 x += 1
 load("lib.star", "a")
 a = 3
+`},
+	{"s_cellbefore", zzNeedNone, `
+def outer():
+    def inner():
+        return y
+    if v3:
+        r = inner()
+    if p:
+        z = y
+    y = 1
+    return inner()
+r = outer()
 `},
 }
 
@@ -745,6 +792,23 @@ r = g()
 print("a", 1)
 x = emit(v0)
 print("b")
+`},
+	{"x_args2", zzNeedNone, `
+def f1(a=1, *args, k):
+    return [a, args, k]
+def f2(a, b=2, *, k=3, **kw):
+    return [a, b, k, kw]
+def f3(*, k):
+    return k
+def g():
+    if v3:
+        return f1()
+    if p:
+        return f3(1)
+    if q:
+        return f2(1, 2, 3)
+    return f2(1, a=2, **{"k": 1})
+r = g()
 `},
 }
 
